@@ -3665,6 +3665,41 @@ class NonTensorStack(LazyStackedTensorDict):
             return super().reshape(-1).reshape(shape)
         return super().reshape(shape)
 
+    def contiguous(self):
+        # there is no dense form of a stack of non-tensor data: LazyStackedTensorDict.contiguous
+        # would build a TensorDict from the (absent) keys and lose every payload
+        result = self.clone()
+        if self.is_locked:
+            result.lock_()
+        return result
+
+    def _gather_non_tensor(self, dim: int, index: Tensor):
+        # torch.gather on the payloads (index has one dim per batch dim)
+        data = self.tolist()
+        array = np.empty(tuple(self.batch_size), dtype=object)
+        for position in np.ndindex(*self.batch_size):
+            item = data
+            for i in position:
+                item = item[i]
+            array[position] = item
+        index = index.cpu().numpy()
+        out = np.empty(index.shape, dtype=object)
+        for position in np.ndindex(*index.shape):
+            source = list(position)
+            source[dim] = int(index[position])
+            out[position] = array[tuple(source)]
+
+        def to_list(position):
+            if len(position) == index.ndim:
+                return out[position]
+            return [
+                to_list(position + (i,)) for i in range(index.shape[len(position)])
+            ]
+
+        return NonTensorStack._from_list(
+            to_list(()), device=self.device, ndim=index.ndim
+        )
+
     def maybe_to_stack(self):
         """Placeholder for interchangeability between stack and non-stack of non-tensors."""
         return type(self)(
